@@ -28,6 +28,7 @@ Pool == [c \in {"P", "Q", "S", "T"} |->
 Sys == [x \in {} |-> [old |-> "", new |-> ""]]
 Kw == {<<5, 1>>}
 Ops11 == {"enable"}
+NoPairs == {}
 Names == {"a", "b", "g", "h", "x", "y", "z"}
 Probes11 == {<<"a", "b">>, <<"a", "g">>, <<"a", "h">>, <<"b", "a">>, <<"b", "g">>, <<"g", "h">>, <<"h", "a">>, <<"h", "b">>,
              <<"x", "y">>, <<"y", "x">>, <<"z", "g">>, <<"x", "a">>, <<"z", "a">>, <<"y", "b">>, <<"g", "a">>, <<"h", "g">>, <<"r", "g">>, <<"r", "h">>, <<"h", "r">>, <<"g", "r">>}
